@@ -211,7 +211,7 @@ def build_v_result(wmap, out, diags, vp, wd):
                 if s.get('label') and 'failed this postcondition' in s['label']:
                     for c in fns[owner]['clauses']:
                         if c['kind'] == 'ensures' and c['from'] <= s['line_start'] <= c['to']:
-                            tags = [t for t in c['tag'].split(',') if t] or None
+                            tags = [t for t in (c['tag'].split() or [''])[0].split(',') if t] or None
                             rec['clause'] = {'tag': c['tag'], 'text': (s.get('text') or [{}])[0].get('text', '').strip()[:300]}
         if kind == 'precondition':
             for s in d.get('spans', []):
@@ -442,7 +442,7 @@ def decide(prop, tier, seed):
                 else: other_props.append(d)
             if relevant:
                 for d in relevant:
-                    ob = '%s#%s' % (name, d['kind'] + ('[%s]' % d['clause']['tag'] if d.get('clause') else ''))
+                    ob = '%s#%s' % (name, d['kind'] + ('[%s]' % d['clause']['tag'].replace(' ', ':') if d.get('clause') else ''))
                     violations.append({'obligation': ob, 'engine': 'verus', 'fn': f['fn'], 'file': f['file'], 'orig_line': f['orig_line'],
                                        'message': d['message'], 'clause': d.get('clause'), 'callee_clause': d.get('callee_clause'),
                                        'rendered': d['rendered'], 'input': None})
